@@ -362,9 +362,9 @@ M('videoin-meta-raw-src', ['C15'], VI, "'src': vid.source, 'src_fps': vid.fps", 
 M('videoout-logs-config-outputs', ['C15'], VO, "        default_options         = {'bgr': config.bgr, 'fps': config.fps, 'segtime': config.segtime}", "        default_options         = {'bgr': config.bgr, 'fps': config.fps, 'segtime': config.segtime}\n        logger.info(f'video outputs: {config.outputs}')", ['C15.R1'])
 M('videowriter-serve-raw', ['C15'], VO, "            logger.info(f'video serve: {hide_uri_users_and_pwds(output)}  ({self.fps:.1f} fps)')", "            logger.info(f'video serve: {output}  ({self.fps:.1f} fps)')", ['C15.R1'])
 M('presign-message-raw', ['C15'], VI, "raise ValueError(f'Failed to generate presigned URL for S3 source {self.source!r}: {hide_uri_users_and_pwds(str(e))}')", "raise ValueError(f'Failed to generate presigned URL for S3 source {self.source!r}: {e}')", ['C15.R1'])
-M('regex-pwd-stops-at-slash', ['C15'], UTL, "re_sub_uri_user_and_pwd = re.compile(r'\\b ( [a-zA-Z][a-zA-Z0-9+\\-.]* :// ) [^:@]*: [^@]* ( @ [^\\s/?#]* )', re.VERBOSE)", "re_sub_uri_user_and_pwd = re.compile(r'\\b ( [a-zA-Z][a-zA-Z0-9+\\-.]* :// ) [^:@]*: [^@/]* ( @ [^\\s/?#]* )', re.VERBOSE)", ['C15.R3'])
-M('regex-keeps-user', ['C15'], UTL, "re_sub_uri_user_and_pwd = re.compile(r'\\b ( [a-zA-Z][a-zA-Z0-9+\\-.]* :// ) [^:@]*: [^@]* ( @ [^\\s/?#]* )', re.VERBOSE)", "re_sub_uri_user_and_pwd = re.compile(r'\\b ( [a-zA-Z][a-zA-Z0-9+\\-.]* :// [^:@]*: ) [^@]* ( @ [^\\s/?#]* )', re.VERBOSE)", ['C15.R3'])
-M('regex-user-class-narrow', ['C15'], UTL, "re_sub_uri_user_and_pwd = re.compile(r'\\b ( [a-zA-Z][a-zA-Z0-9+\\-.]* :// ) [^:@]*: [^@]* ( @ [^\\s/?#]* )', re.VERBOSE)", "re_sub_uri_user_and_pwd = re.compile(r'\\b ( [a-zA-Z][a-zA-Z0-9+\\-.]* :// ) [^:@!]*: [^@]* ( @ [^\\s/?#]* )', re.VERBOSE)", ['C15.R3'])
+M('regex-pwd-stops-at-slash', ['C15'], UTL, "re_sub_uri_user_and_pwd = re.compile(r'\\b ( [a-zA-Z][a-zA-Z0-9+\\-.]* :// ) [^:@]*: [^@]* ( @ )', re.VERBOSE)", "re_sub_uri_user_and_pwd = re.compile(r'\\b ( [a-zA-Z][a-zA-Z0-9+\\-.]* :// ) [^:@]*: [^@/]* ( @ )', re.VERBOSE)", ['C15.R3'])
+M('regex-keeps-user', ['C15'], UTL, "re_sub_uri_user_and_pwd = re.compile(r'\\b ( [a-zA-Z][a-zA-Z0-9+\\-.]* :// ) [^:@]*: [^@]* ( @ )', re.VERBOSE)", "re_sub_uri_user_and_pwd = re.compile(r'\\b ( [a-zA-Z][a-zA-Z0-9+\\-.]* :// [^:@]*: ) [^@]* ( @ )', re.VERBOSE)", ['C15.R3'])
+M('regex-user-class-narrow', ['C15'], UTL, "re_sub_uri_user_and_pwd = re.compile(r'\\b ( [a-zA-Z][a-zA-Z0-9+\\-.]* :// ) [^:@]*: [^@]* ( @ )', re.VERBOSE)", "re_sub_uri_user_and_pwd = re.compile(r'\\b ( [a-zA-Z][a-zA-Z0-9+\\-.]* :// ) [^:@!]*: [^@]* ( @ )', re.VERBOSE)", ['C15.R3'])
 M('mask-replacement-keeps-all', ['C15'], UTL, "    return re_sub_uri_user_and_pwd.sub(r'\\g<1>****\\g<2>', text)", "    return re_sub_uri_user_and_pwd.sub(r'\\g<0>', text)", ['C15.R3'])
 
 # ------------------------------------------------------------------------------------------- later additions (zmq / mq)
@@ -444,7 +444,7 @@ M('start-skipped-on-empty-facets', ['C18'], F, "        if hasattr(self, 'emitte
 M('recv-D10-shape', ['C01', 'C07'], Z, "else max(state.msg_id, self.prev_id + 1)  # the same state", "else state.msg_id  # the same state", ['C01.R9', 'C07.R6'])
 M('recv-entry-min-instead-of-max', ['C01'], Z, "else max(state.msg_id, self.prev_id + 1)  # the same state", "else min(state.msg_id, self.prev_id + 1)  # the same state", ['C01.R9'])
 M('mask-D11-shape-user-nonempty', ['C15'], UTL, "re_sub_uri_user_and_pwd = re.compile(r'\\b ( [a-zA-Z][a-zA-Z0-9+\\-.]* :// ) [^:@]*:", "re_sub_uri_user_and_pwd = re.compile(r'\\b ( [a-zA-Z][a-zA-Z0-9+\\-.]* :// ) [^:@]+:", ['C15.R3'])
-M('mask-pwd-bounded-length', ['C15'], UTL, ":// [^:@]*: ) [^@]* ( @ [^\\s/?#]* )', re.VERBOSE)", ":// [^:@]*: ) [^@]{1,64} ( @ [^\\s/?#]* )', re.VERBOSE)", ['C15.R3'])
+M('mask-pwd-bounded-length', ['C15'], UTL, ":// [^:@]*: ) [^@]* ( @ )', re.VERBOSE)", ":// [^:@]*: ) [^@]{1,64} ( @ )', re.VERBOSE)", ['C15.R3'])
 M('imagein-D12-shape', ['C15'], II, "hide_uri_users_and_pwds('file://' + path)", "hide_uri_users_and_pwds(path)", ['C15.R1'])
 M('seed3-C02-topic-rename-cascades', ['C02'], Z, """                    for topic, frame in (recvd.items() if (recvd := sender.recvd) is not None else ()):
                         if frame is not None:
@@ -617,7 +617,9 @@ M('seed6-C09-outs-jpg-sticks', ['C09'], MQ, "                enc  = 'jpg' if (do
 M('decoder-data-carried-across-topics', ['C09'], MQ, "            data  = json_loads(msg[dataidx].decode()) if lmsg > dataidx else None", "            if lmsg > dataidx:\n                data = json_loads(msg[dataidx].decode())", ['C09.R10'])
 M('seed6-C15-clip-before-mask', ['C15'], F, "                        hide_uri_users_and_pwds(cfg)       if isinstance(cfg, str) else", "                        hide_uri_users_and_pwds(cfg if len(cfg) <= 256 else f'{cfg[:256]}...') if isinstance(cfg, str) else", ['C15.R1'])
 M('dlcache-D18-shape-info', ['C15'], DLC, "{hide_uri_users_and_pwds(dlcuri)}')\n\n                response = requests.get(fileurl", "{dlcuri}')\n\n                response = requests.get(fileurl", ['C15.R1'])
-M('mask-D35-shape-host-nonempty', ['C15'], UTL, "re_sub_uri_user_and_pwd = re.compile(r'\\b ( [a-zA-Z][a-zA-Z0-9+\\-.]* :// ) [^:@]*: [^@]* ( @ [^\\s/?#]* )'", "re_sub_uri_user_and_pwd = re.compile(r'\\b ( [a-zA-Z][a-zA-Z0-9+\\-.]* :// ) [^:@]*: [^@]* ( @ [^\\s/?#]+ )'", ['C15.R3'])
+M('mask-D35-shape-host-nonempty', ['C15'], UTL, "re_sub_uri_user_and_pwd = re.compile(r'\\b ( [a-zA-Z][a-zA-Z0-9+\\-.]* :// ) [^:@]*: [^@]* ( @ )'", "re_sub_uri_user_and_pwd = re.compile(r'\\b ( [a-zA-Z][a-zA-Z0-9+\\-.]* :// ) [^:@]*: [^@]* ( @ [^\\s/?#,;!]+ )'", ['C15.R3'])
+M('mask-D59-shape-host-class-crosses-comma', ['C15'], UTL, "re_sub_uri_user_and_pwd = re.compile(r'\\b ( [a-zA-Z][a-zA-Z0-9+\\-.]* :// ) [^:@]*: [^@]* ( @ )'", "re_sub_uri_user_and_pwd = re.compile(r'\\b ( [a-zA-Z][a-zA-Z0-9+\\-.]* :// ) [^:@]*: [^@]* ( @ [^\\s/?#]* )'", ['C15.R3'])
+M('mask-D59-shape-pwd-host-class-crosses-comma', ['C15'], UTL, ":// [^:@]*: ) [^@]* ( @ )', re.VERBOSE)", ":// [^:@]*: ) [^@]* ( @ [^\\s/?#;]* )', re.VERBOSE)", ['C15.R3'])
 M('seed6-C17-dedup-identical-xforms', ['C17'], UT, "                new_xforms.append(xform)\n", "                if new_xforms and new_xforms[-1] == xform:\n                    continue\n\n                new_xforms.append(xform)\n", ['C17.R7'])
 M('xforms-normalised-list-truncated', ['C17'], UT, "            config.xforms = new_xforms\n", "            config.xforms = new_xforms[:8]\n", ['C17.R7'])
 M('size-D19-shape-uppercase-x', ['C17'], UT, "                        if aspect == '+':\n", "                        if aspect != 'x':\n", ['C17.R6'])
@@ -706,3 +708,6 @@ M('zmq-eph-id-in-balanced-max', ['C05'], Z, "                        out_prev_id
 M('zmq-D54-shape-eph-close-keeps-partial', ['C05'], Z, "                            if sender_eph and sender.got == 'some':  # the rest of a half received set will not come any more, and must not be completed by the next publisher on this address\n                                sender.new_recv()\n", "", ['C05.R11'])
 
 M('scan-D58-shape-stat-unprotected', ['C13', 'C14'], RL, "                try:\n                    size = os.stat(path).st_size\n                except FileNotFoundError:  # pruned by the writer between the listing and this look at it\n                    continue\n", "                size = os.stat(path).st_size\n", ['C13.R8', 'C14.R7'])
+# ------------------------------------------------------------------------------------------------------ round 9 seeds and D59 .. shapes
+M('cli-D60-shape-source-logged-raw', ['C15'], CLI, 'logger.info(f"add {config.id}.sources={hide_uri_users_and_pwds(sources[i])!r}")', 'logger.info(f"add {config.id}.sources={sources[i]!r}")', ['C15.R1'])
+M('cli-config-logged-raw', ['C15'], CLI, "    config_by_id = {}  # {'config.id': config, ...}\n", "    config_by_id = {}  # {'config.id': config, ...}\n    logger.debug(f'filters: {[c for _, c, _ in filters]}')\n", ['C15.R1'])
